@@ -127,22 +127,27 @@ def build(tier="quick", seed=0):
         def cexp_goal(p):
             v = Cx.of(p.value)
             return sp.And(sp.Eq(v.re, T.exp_(zr) * T.cos_(zi)), sp.Eq(v.im, T.exp_(zr) * T.sin_(zi)))
-        inst = [sp.Eq(T.exp_(zr), T.exp_(zr - K * LN2) * pow2(K))]       # exp(x) = exp(x - K ln2) 2^K
         for i, p in enumerate(paths):
             if p.outcome != "return":
                 continue
-            extra = list(inst)
-            # 2^(a+b) = 2^a 2^b for the exponents produced by frexp / ldexp on this path
-            pws = [t for t in T.free_atoms(sp.And(*[f for f in p.facts if isinstance(f, sp.Basic)] + [sp.Eq(Cx.of(p.value).re, 0), sp.Eq(Cx.of(p.value).im, 0)])) if isinstance(t, sp.core.function.AppliedUndef) and t.func.__name__ == "pow_"]
-            for t in pws:
-                k = t.args[1]
-                if isinstance(k, sp.Add):
-                    prod = sp.Integer(1)
-                    for a_ in k.args:
-                        prod *= pow2(a_)
-                    extra.append(sp.Eq(t, prod))
-            b.add(Obligation(oid=f"{fn.key}::ensures:exponential@path{i}", fn=fn.key, clause="ensures result == e^x (cos y + i sin y) (scaled branch: with exp(x) = exp(x - K ln2) 2^K and 2^(a+b) = 2^a 2^b)",
-                             goal=cexp_goal(p), hyps=PRE_CONST + p.hyps + extra))
+            rels = []
+            scaled = any(isinstance(f, sp.Eq) and f.rhs.has(T.pow_) for f in p.facts if isinstance(f, sp.Basic))
+            if scaled:
+                # frexp facts  v == m 2^e  are used as rewriting relations for v; exp(x) = exp(x - K ln2) 2^K; 2^(a+b+..) = 2^a 2^b ..
+                for f in p.facts:
+                    if isinstance(f, sp.Eq) and isinstance(f.lhs, sp.core.function.AppliedUndef):
+                        rels.append((f.lhs, 1, f.rhs))
+                rels.append((T.exp_(zr), 1, T.exp_(zr - K * LN2) * pow2(K)))
+                v_ = Cx.of(p.value)
+                for t in T.free_atoms(sp.And(sp.Eq(v_.re, 0, evaluate=False), sp.Eq(v_.im, 0, evaluate=False))):
+                    if isinstance(t, sp.core.function.AppliedUndef) and t.func.__name__ == "pow_" and isinstance(t.args[1], sp.Add):
+                        prod = sp.Integer(1)
+                        for a_ in t.args[1].args:
+                            prod *= pow2(a_)
+                        rels.append((t, 1, prod))
+            b.add(Obligation(oid=f"{fn.key}::ensures:exponential{'[scaled]' if scaled else ''}@path{i}", fn=fn.key,
+                             clause="ensures result == e^x (cos y + i sin y)" + (" on the scaled branch (frexp/ldexp: v = m 2^e; exp(x) = exp(x - K ln2) 2^K; 2^(a+b) = 2^a 2^b)" if scaled else ""),
+                             goal=cexp_goal(p), hyps=PRE_CONST + p.hyps, rels=rels, backends=("qqnf", "z3")))
         no_raise(b, fn, paths, PRE_CONST)
     # ---- clog
     fn, ex, paths = run_fn(b, FC, "cf_clog", dict(z=Z), PRE_CONST + [sp.Gt(zr ** 2 + zi ** 2, 0)], globals_env=G_,
